@@ -63,6 +63,18 @@ impl<T> ReplicaArc<T> {
     }
 }
 
+#[cfg(feature = "verif_hooks")]
+impl<T> ReplicaArc<Mutex<T>> {
+    /// Verification hook: `try_lock` of the shared mutex. It shadows the method otherwise reached through `Deref` and adds
+    /// an optional scheduling point right after the attempt when the calling thread holds the global lock.
+    #[inline]
+    pub fn try_lock(&self) -> Result<tokio::sync::MutexGuard<'_, T>, tokio::sync::TryLockError> {
+        let locked = self.inner.try_lock();
+        crate::verif_hooks::in_cs(9);
+        locked
+    }
+}
+
 impl<T> Deref for ReplicaArc<T> {
     type Target = T;
 
